@@ -98,7 +98,7 @@ def run(ctx):
     common.import_spowtd()
     warnings.simplefilter("ignore")
     rng = ctx.rng
-    nsets, ncli = (6, 2) if ctx.tier == "quick" else (150, 40)
+    nsets, ncli = (6, 6) if ctx.tier == "quick" else (150, 60)
     for k in range(nsets):
         params = sim.spline_params(rng, -300.0, 100.0) if k % 3 else sim.peatclsm_params(rng, 100.0)
         if params["transmissivity"]["type"] == "spline":
@@ -130,7 +130,8 @@ def run(ctx):
         t = cli.dump(w["db"])
         view = t["average_recession_time"]
         levels = [r[0] for r in view]
-        params = sim.spline_params(rng, min(levels), max(levels)) if rng.random() < 0.6 else sim.peatclsm_params(rng, max(levels))
+        # (spline transmissivity costs a nested quad per evaluation: one CLI case in three)
+        params = sim.spline_params(rng, min(levels), max(levels)) if _ % 3 == 0 else sim.peatclsm_params(rng, max(levels))
         inp = {"truth": tr.describe(), "zeta_step": zstep, "parameters": params, "curvature_m_km2": curv}
         # capture the ET the command actually uses
         import spowtd.simulate_recession as srm
